@@ -74,7 +74,9 @@ def xy_rows(blk):
     xs, ys = [], []
     for l in blk:
         f = l.split()
-        if len(f) != 2:
+        # rows computed by the "extended" formula of the block's REMARK carry a trailing '*'; kissel.pro reads the first two
+        # tokens of every row up to END OF DATA, so they belong to the table
+        if not (len(f) == 2 or (len(f) == 3 and f[2] == "*")):
             continue
         try:
             a, b = float(f[0]), float(f[1])
